@@ -83,7 +83,9 @@ impl LenCodecBuilder {
         ensures r.max == self.max,
     { LengthDelimitedCodec { max: self.max } }
 }
-pub const MIN_MAX_FRAME_SIZE: usize = 512;
+//@@ type file=fe2o3-amqp-types/src/definitions/constant_def.rs kind=const name=MIN_MAX_FRAME_SIZE
+//@@ end
+proof fn spec_min_max_frame_size() ensures MIN_MAX_FRAME_SIZE == 512 {}      // [C06.constants.min-max-frame-size] [C17.constants.min-max-frame-size]
 pub fn usize_max(a: usize, b: usize) -> (r: usize) ensures r == (if a >= b { a } else { b }) { if a >= b { a } else { b } }
 pub struct FramedWriteS { pub codec: LenCodec, pub items: Ghost<Seq<Seq<u8>>> }
 impl FramedWriteS {
